@@ -2345,3 +2345,84 @@ def check_error_discipline(ck, rule, prog, file_rx, allowed=(), floor=0):
     if floor:
         ck.floor(rule, "call sites of fallible crate functions", n, floor, soft=True)
     return n
+
+
+# =====================================================================================================
+# KSIB: the gene / OMIM / ORPHA variants of one operation agree
+# =====================================================================================================
+KIND_TOKENS = [("orpha_disease", "K"), ("omim_disease", "K"), ("OrphaDisease", "K"), ("OmimDisease", "K"), ("orpha", "K"), ("omim", "K"), ("Orpha", "K"), ("Omim", "K"),
+               ("gene", "K"), ("Gene", "K"), ("disease", "K"), ("Disease", "K")]
+# groups whose members differ by design on today's tree (a delegating impl next to a full one, gene files have a header, ...): confirmed by
+# reading, not compared
+KSIB_EXEMPT = {
+    "<annotations::K::K as std::convert::TryFrom>::try_from": "the disease impls delegate to Disease::from_bytes, the gene impl decodes in place",
+    "annotations::K::K::as_bytes": "Gene::as_bytes truncates the name itself, the diseases share a default method",
+    "ontology::comparison::AnnotationDelta::K": "`disease` is generic over the Disease trait (calls not resolved per kind)",
+    "parser::K_to_hpo::parse": "the gene files carry a header line and have two column layouts; phenotype.hpoa is parsed row by row into an enum",
+    "similarity::defaults::Mutation::K_similarity": "disease_similarity is the shared helper of the two disease variants",
+}
+
+
+def _abs_kind(s):
+    for a, b in KIND_TOKENS:
+        s = s.replace(a, b)
+    return re.sub(r"Ks\b", "K", s)
+
+
+def kind_sibling_groups(prog):
+    groups = {}
+    for b in prog.production():
+        if b.kind not in ("Fn", "AssocFn"):
+            continue
+        raw = re.sub(r"<[^<>]*>", "", b.id)
+        key = _abs_kind(raw)
+        if key != raw:
+            groups.setdefault(key, []).append(b)
+    return {k: v for k, v in groups.items() if len(v) >= 3 and k not in KSIB_EXEMPT}
+
+
+def check_kind_siblings(ck, rule, prog, file_rx=r".*", floor=0):
+    """in a group of three (or more) functions that are the gene / OMIM / ORPHA variants of one operation, none may do something the
+    others do not: an extra filtering / truncating adaptor, an extra error-swallowing or text-changing call, a call of a crate function
+    that no sibling calls.  (What a variant LACKS is not judged: one sibling written as a loop, the others as a chain, is fine.)"""
+    from props.shared import STR_CHANGE
+    sus = (SOFT_FILTERS | ERR_SWALLOW | STR_CHANGE) - {"iter", "into_iter", "peekable"}
+
+    def feats(b):
+        cc, st = set(), set()
+        for fb in prog.family(b):
+            for bi, t in fb.calls():
+                r = t.callee.res
+                if r and r in prog.bodies and prog.bodies[r].kind != "Closure":
+                    nm = _abs_kind(prog.bodies[r].name or "?")
+                    if nm not in ("new", "default", "from", "into", "clone", "try_new", "with_capacity", "as_u32", "id", "name"):  # value constructors / plain accessors
+                        cc.add(nm)
+                elif t.callee.method in sus:
+                    # selection by content is one class however it is spelled (filter / filter_map(.. then_some) / find ...)
+                    st.add("a selecting adaptor (filter / filter_map / find ..)" if t.callee.method in ("filter", "filter_map", "find", "find_map", "flat_map", "retain", "position") else t.callee.method)
+        return cc, st
+    n = 0
+    for key, bs in sorted(kind_sibling_groups(prog).items()):
+        if not any(re.search(file_rx, b.file or "") for b in bs):
+            continue
+        F = {b.id: feats(b) for b in bs}
+        n += 1
+        odd = []
+        for b in bs:
+            others = [F[o.id] for o in bs if o.id != b.id]
+            ecc = F[b.id][0] - set().union(*[o[0] for o in others])
+            est = F[b.id][1] - set().union(*[o[1] for o in others])
+            if ecc or est:
+                odd.append((b, sorted(ecc), sorted(est)))
+        label = key.rsplit("::", 1)[-1]
+        if not odd:
+            ck.ob(rule, "kind-siblings/%s" % key, True, "%s: the %d variants call the same crate functions and use no filtering / error-swallowing / text-changing step that a sibling lacks" % (label, len(bs)))
+        elif len(odd) == 1:
+            b, ecc, est = odd[0]
+            ck.ob(rule, "kind-siblings/%s" % key, False, "%s differs from its %d sibling(s): it alone %s" % (b.short, len(bs) - 1, "; ".join(
+                (["uses `%s`" % ", ".join(est)] if est else []) + (["calls %s" % ", ".join(ecc)] if ecc else []))), where=b.where())
+        else:
+            ck.undecided(rule, "kind-siblings/%s" % key, "%s: more than one variant has steps of its own (%s)" % (label, "; ".join("%s: %s" % (b.short, e1 + e2) for b, e1, e2 in odd)))
+    if floor:
+        ck.floor(rule, "groups of kind variants", n, floor, soft=True)
+    return n
